@@ -112,17 +112,37 @@ def digitsVal (s : Bytes) : Nat := s.foldl (fun acc b => acc * 10 + (b.toNat - 4
 def maxInt64 : Int := 9223372036854775807
 def minInt64 : Int := -9223372036854775808
 
-/-- value returned by `strconv.Atoi` (0 on a syntax error, saturated on a range error) -/
+/-- outcome of `strconv.ParseUint`'s digit loop (base 10, 64 bits): the loop stops at the first byte that
+is not a digit (syntax error) or at the first digit that overflows uint64 (range error) - whichever
+comes first, so a 20-digit number followed by garbage is a range error -/
+inductive AScan | syntax | range | val (n : Nat)
+
+def maxUint64 : Nat := 18446744073709551615
+
+def scanU : Bytes → Nat → AScan
+  | [], n => .val n
+  | c :: r, n =>
+    if !isDigit c then .syntax
+    else if n ≥ maxUint64 / 10 + 1 then .range
+    else
+      let n1 := n * 10 + (c.toNat - 48)
+      if n1 > maxUint64 then .range else scanU r n1
+
+/-- value returned by `strconv.Atoi` alongside its error (0 on a syntax error, saturated on a range
+error); Atoi's fast path for short strings agrees with ParseInt, which is what is modelled -/
 def atoi (s : Bytes) : Int :=
   let (neg, ds) := match s with
     | 0x2D :: r => (true, r)
     | 0x2B :: r => (false, r)
     | _ => (false, s)
-  if ds.isEmpty || !ds.all isDigit then 0
+  if ds.isEmpty then 0
   else
-    let v : Int := digitsVal ds
-    if neg then (if -v < minInt64 then minInt64 else -v)
-    else (if v > maxInt64 then maxInt64 else v)
+    match scanU ds 0 with
+    | .syntax => 0
+    | .range => if neg then minInt64 else maxInt64
+    | .val un =>
+      if neg then (if un > 9223372036854775808 then minInt64 else -(un : Int))
+      else (if un ≥ 9223372036854775808 then maxInt64 else (un : Int))
 
 /-- converters.go `parseNumField` -/
 def parseNum (s : Bytes) : Int := atoi (trimSpace s)
